@@ -768,7 +768,8 @@ def _separator_searches(w, fns):
                 if "<impl str>" in n and last in SEARCHES:
                     pats = [a.get("v") for a in c["args"][1:] if a.get("k") == "const" and isinstance(a.get("v"), str)]
                     if pats and pats[0] in (":", "[", "]"):
-                        out.add((last, pats[0]))
+                        # what matters is WHICH occurrence is taken: split_once cuts at the first one like find, rsplit_once at the last one like rfind
+                        out.add(({"split_once": "find", "rsplit_once": "rfind"}.get(last, last), pats[0]))
     return out
 
 
